@@ -82,10 +82,11 @@ def gen_cases(g, rng, tier):
                     (["f8/-/4/-"] if definer.startswith("80") else []) + [definer]
             yield decls, "fb/-/-/R9,Rd,%s,Rd,%s,Re" % (lit(), lit()), "ctx"
     # the largest encodable instructions: exactly 65535 and 65534 words
-    for total in (65535, 65534):
+    for total in ((65535, 65534) if tier == "thorough" else (65535,)):
         yield [], "1e/-/5/" + ",".join("R%x" % (k % 4000 + 1) for k in range(total - 2)), "maxwords"
-        yield [], "50/7/9/" + ",".join("R%x" % (k % 4000 + 1) for k in range(total - 3)), "maxwords"
-        yield [], "7/-/3/S" + ("61" * ((total - 2) * 4 - 1)), "maxwords"
+        if tier == "thorough":
+            yield [], "50/7/9/" + ",".join("R%x" % (k % 4000 + 1) for k in range(total - 3)), "maxwords"
+            yield [], "7/-/3/S" + ("61" * ((total - 2) * 4 - 1)), "maxwords"
     # OpSpecConstantOp over every admissible nested opcode
     sco = [x for x in g.core if x["name"] == "SpecConstantOp"][0]
     banned = ("LiteralContextDependentNumber", "PairLiteralIntegerIdRef", "LiteralSpecConstantOpInteger")
